@@ -70,8 +70,12 @@ LibVerdict(c) ==
   LET op == c.op IN
   IF ~OpOK(op) \/ ~WellFormedDoc(c.in) THEN <<"fail", "InputWellFormed", "harness">>
   ELSE LET I == DocFun(c.in) IN
-  IF op.kind = "replace" /\ ~Missing(I, op) /\ ~AlphabetOK(ColOf(I[op.cat], op.to), op.alpha)
+  IF op.kind = "replace" /\ ~Missing(I, op) /\ Cardinality(Ran(op.alpha)) # Len(op.alpha)
     THEN <<"fail", "InputWellFormed", "alphabet">>
+  \* an alphabet with fewer letters than the column has distinct values admits no injective mapping: the only
+  \* answer that does not break the statement is a refusal (an exception; nothing is returned)
+  ELSE IF op.kind = "replace" /\ ~Missing(I, op) /\ ~AlphabetOK(ColOf(I[op.cat], op.to), op.alpha)
+    THEN IF c.lib.err # "" THEN <<"ok">> ELSE <<"fail", "ReplaceIsInjectiveFirstSeen", "alphabet too short">>
   ELSE IF c.lib.err # "" THEN <<"fail", "LibReturns", c.lib.err>>
   ELSE IF c.lib.ret # RetShape(op) THEN <<"fail", "ReturnShape", c.lib.ret>>
   ELSE IF Missing(I, op) THEN
@@ -107,7 +111,8 @@ DeviationNames == {"CliPathAsContent", "CliReplaceWritesTuple"}
 
 CliVerdict(c) ==
   IF ~OpOK(c.op) THEN <<"fail", "InputWellFormed", "harness">>
-  ELSE IF c.lib.err # "" THEN <<"fail", "LibReturns", c.lib.err>>
+  \* the library refuses (alphabet too short, see LibVerdict): the tool may not succeed where the library refuses
+  ELSE IF c.lib.err # "" THEN (IF c.cli.err # "" THEN <<"ok">> ELSE <<"fail", "CliEqualsLib", "cli succeeds, library refuses">>)
   ELSE IF CliRequired(c) THEN <<"ok">>
   ELSE IF \E dev \in DeviationNames : ExplainedBy(c, dev)
     THEN <<"deviation", CHOOSE dev \in DeviationNames : ExplainedBy(c, dev), c.op.kind>>
